@@ -29,7 +29,10 @@ func pureExternal(fn *types.Func) bool {
 		strings.HasPrefix(n, "github.com/cockroachdb/pebble/internal/invariants."),
 		strings.HasPrefix(n, "(github.com/cockroachdb/pebble/internal/base.Logger)."),
 		strings.HasPrefix(n, "github.com/cockroachdb/pebble/internal/crc."), strings.HasPrefix(n, "(github.com/cockroachdb/pebble/internal/crc.CRC)."),
-		strings.HasPrefix(n, "unsafe."):
+		strings.HasPrefix(n, "unsafe."),
+		strings.HasPrefix(n, "github.com/cockroachdb/pebble/internal/bitflip."),
+		strings.HasSuffix(n, ".logf"), strings.HasSuffix(n, "Logger).Infof"), strings.HasSuffix(n, "Logger).Errorf"),
+		strings.HasSuffix(n, "Logger).Eventf"):
 		return true
 	}
 	return false
@@ -325,7 +328,11 @@ func (x *Exec) receiver(s *State, fr *Frame, sel *ast.SelectorExpr, si *types.Se
 func (x *Exec) args(s *State, fr *Frame, call *ast.CallExpr, sig *types.Signature) []Value {
 	var out []Value
 	np := sig.Params().Len()
-	if len(call.Args) == 1 && np > 1 {
+	isTuple := false
+	if len(call.Args) == 1 {
+		_, isTuple = fr.info.TypeOf(call.Args[0]).(*types.Tuple)
+	}
+	if len(call.Args) == 1 && np > 1 && isTuple {
 		tv, ok := x.exprMulti(s, fr, call.Args[0], np).(*TupleV)
 		if !ok {
 			unsup("multi-value argument")
